@@ -145,3 +145,17 @@ func TestSchedulerSerialisesAndIsDeterministic(t *testing.T) {
 		}
 	}
 }
+
+func TestPanicOrigin(t *testing.T) {
+	lib := "goroutine 1 [running]:\nruntime/debug.Stack()\n\t/usr/local/go/src/runtime/debug/stack.go:26 +0x5e\nmain.runWorld.func1.1()\n\t/verif/cmd/simrun/main.go:73 +0x3a\npanic({0x6a2a40?, 0x8f5a10?})\n\t/usr/local/go/src/runtime/panic.go:785 +0x132\nruntime.panicmem(...)\n\t/usr/local/go/src/runtime/panic.go:262\nruntime.sigpanic()\n\t/usr/local/go/src/runtime/signal_unix.go:917 +0x359\ngitlab.com/yawning/secp256k1-voi.(*Point).ScalarBaseMult(0xc000012345, 0x0)\n\t/repo/point_mul.go:100 +0x20\nverif/sim/worlds/sign.Run(...)\n"
+	if fn, in := PanicOrigin(lib); !in || fn != "gitlab.com/yawning/secp256k1-voi.(*Point).ScalarBaseMult" {
+		t.Fatalf("library origin: %q %v", fn, in)
+	}
+	own := "goroutine 1 [running]:\npanic({0x1, 0x2})\n\t/usr/local/go/src/runtime/panic.go:785 +0x132\nverif/sim/worlds/sign.Run(0x1)\n\t/verif/sim/worlds/sign/sign.go:10 +0x1\n"
+	if fn, in := PanicOrigin(own); in || fn != "verif/sim/worlds/sign.Run" {
+		t.Fatalf("harness origin: %q %v", fn, in)
+	}
+	if _, in := PanicOrigin("no panic here"); in {
+		t.Fatal("no panic frame")
+	}
+}
